@@ -225,7 +225,10 @@ def check_swallow(ctx: Ctx, rep: Report, err_base: ClassInfo) -> None:
             if owner_try is not None:
                 body_mod = ast.Module(body=list(owner_try.body), type_ignores=[])
                 calls = [c for c in ast.walk(body_mod) if isinstance(c, ast.Call)]
-                foreign_only = bool(calls) and all(isinstance(c.func, ast.Name) and c.func.id in fn.params and not [k for k in ctx.r.callees(fn, c) if isinstance(k, FuncInfo)] for c in calls)
+                pure_builtins = ("bytes", "str", "int", "len", "tuple", "list", "dict", "repr", "float", "bool")
+                foreign_only = any(isinstance(c.func, ast.Name) and c.func.id in fn.params for c in calls) and all(
+                    isinstance(c.func, ast.Name) and (c.func.id in fn.params or c.func.id in pure_builtins) and not [k for k in ctx.r.callees(fn, c) if isinstance(k, FuncInfo)] for c in calls
+                )
                 reads = [a for a in ast.walk(body_mod) if isinstance(a, (ast.Attribute, ast.Subscript, ast.Await))]
                 if foreign_only and not reads:
                     rep.ok("C08-R5", site, text, "the guarded block only calls a callable handed in by the caller (an observer hook): nothing of an agent's response is evaluated inside it")
